@@ -46,6 +46,9 @@ typedef int vswprintf_dummy_t(void);
 SYM(qsort); SYM(asctime); SYM(ctime); SYM(sprintf); SYM(swprintf); SYM(tmpfile); SYM(strcpy); SYM(memcpy);
 SYM(localtime); SYM(fopen); SYM(strtok); SYM(strerror); SYM(wcsnorm); SYM(gmtime); SYM(getenv); SYM(bsearch); SYM(wcsicmp); SYM(snprintf);
 static swprintf_t *snwprintf_p;
+static int (*mbstowcs_p)(size_t *, wchar_t *, size_t, const char *, size_t, size_t);
+static int (*wcstombs_p)(size_t *, char *, size_t, const wchar_t *, size_t, size_t);
+static int (*wctomb_p)(int *, char *, size_t, wchar_t, size_t);
 
 static int cmp_int(const void *a, const void *b, void *ctx) { (void)ctx; int x = *(const int *)a, y = *(const int *)b; return (x > y) - (x < y); }
 static int cmp_big(const void *a, const void *b, void *ctx) { (void)ctx; return memcmp(a, b, 4); }
@@ -57,21 +60,7 @@ static void op_qsort_big(OpCtx *c) {
     c->rc = qsort_p(a, 3, 300, cmp_big, NULL, BOSU); put(c, a, 600);
 }
 static void mk_tm(struct tm *t, int v) { memset(t, 0, sizeof *t); t->tm_year = 100 + v * 7; t->tm_mon = 3 + v; t->tm_mday = 5 + v; t->tm_hour = 1 + v; t->tm_wday = (2 + v) % 7; }
-/* ---- libc functions that keep or hand out process-wide state by contract.  They are defined here, in the executable, so
- * that calls coming out of the shared library resolve to them (-rdynamic); each records that it was called during an
- * operation and forwards to the real function.  State kept outside the library's own static segment (libc's localtime
- * buffer, the process umask) is visible to the checks only through this list. */
-#include <sys/stat.h>
-static const char *deny_hit; static volatile int in_op;
-#define REAL(name) static __typeof__(name) *real; if (!real) real = (__typeof__(name) *)dlsym(RTLD_NEXT, #name)
-struct tm *localtime(const time_t *t) { REAL(localtime); if (in_op) deny_hit = "localtime"; return real(t); }
-struct tm *gmtime(const time_t *t) { REAL(gmtime); if (in_op) deny_hit = "gmtime"; return real(t); }
-char *asctime(const struct tm *t) { REAL(asctime); if (in_op) deny_hit = "asctime"; return real(t); }
-char *ctime(const time_t *t) { REAL(ctime); if (in_op) deny_hit = "ctime"; return real(t); }
-char *strtok(char *a, const char *b) { REAL(strtok); if (in_op) deny_hit = "strtok"; return real(a, b); }
-int rand(void) { REAL(rand); if (in_op) deny_hit = "rand"; return real(); }
-mode_t umask(mode_t m) { REAL(umask); if (in_op) deny_hit = "umask"; return real(m); }
-char *tmpnam(char *b) { REAL(tmpnam); if (in_op) deny_hit = "tmpnam"; return real(b); }
+#include "../denylist.h"
 static void op_asctime26(OpCtx *c) { char d[26]; struct tm t; mk_tm(&t, c->v); memset(d, 0x55, sizeof d); c->rc = asctime_p(d, 26, &t, BOSU); put(c, d, 26); }
 static void op_asctime130(OpCtx *c) { char d[130]; struct tm t; mk_tm(&t, c->v); memset(d, 0x55, sizeof d); c->rc = asctime_p(d, 130, &t, BOSU); put(c, d, 130); }
 static void op_ctime(OpCtx *c) { char d[26]; time_t t = 1000000000 + c->v * 86400 * 400; memset(d, 0x55, sizeof d); c->rc = ctime_p(d, 26, &t, BOSU); put(c, d, 26); }
@@ -106,6 +95,12 @@ static void op_bsearch(OpCtx *c) { int a[5] = { 1, 3, 5, 7, 9 }; int k = c->v ? 
 static void op_wcsicmp(OpCtx *c) { int r = 99; c->rc = wcsicmp_p(c->v ? L"HeLLo wOrld" : L"abcDEF ghij", 12, c->v ? L"hello World" : L"ABCdef GHIK", 12, &r, BOSU, BOSU); put(c, &r, sizeof r); }
 static void op_snprintf_trunc(OpCtx *c) { char d[8]; memset(d, 0x55, 8); c->rc = snprintf_p(d, 8, BOSU, "%s-%d", c->v ? "longer-text" : "other-words", 5 + c->v); put(c, d, 8); }
 
+static void op_sprintf_lc(OpCtx *c) { char d[32]; memset(d, 0x55, 32); c->rc = sprintf_p(d, 32, BOSU, "<%lc|%c>", (wint_t)(c->v ? L'q' : L'r'), 'x' + c->v); put(c, d, 32); }
+static void op_mbstowcs(OpCtx *c) { wchar_t d[12]; size_t r = 0; memset(d, 0x55, sizeof d); c->rc = mbstowcs_p(&r, d, 12, c->v ? "second str" : "first", 12, BOSU); put(c, d, sizeof d); put(c, &r, sizeof r); }
+static void op_mbstowcs_count(OpCtx *c) { size_t r = 0; c->rc = mbstowcs_p(&r, NULL, 0, c->v ? "second str" : "first", 0, BOSU); put(c, &r, sizeof r); }
+static void op_wcstombs(OpCtx *c) { char d[12]; size_t r = 0; memset(d, 0x55, sizeof d); c->rc = wcstombs_p(&r, d, 12, c->v ? L"second str" : L"first", 12, BOSU); put(c, d, sizeof d); put(c, &r, sizeof r); }
+static void op_wctomb(OpCtx *c) { char d[8]; int r = 0; memset(d, 0x55, sizeof d); c->rc = wctomb_p(&r, d, 8, c->v ? L'q' : L'r', BOSU); put(c, d, sizeof d); put(c, &r, sizeof r); }
+
 static struct { const char *name; OpFn fn; } ops[] = {
     { "qsort_int", op_qsort_int }, { "qsort_big", op_qsort_big }, { "asctime26", op_asctime26 }, { "asctime130", op_asctime130 },
     { "ctime", op_ctime }, { "ctime_far", op_ctime_far }, { "localtime", op_localtime }, { "fopen_w", op_fopen_w }, { "sprintf_Lf", op_sprintf_Lf }, { "sprintf_a", op_sprintf_a }, { "sprintf_big", op_sprintf_big },
@@ -113,7 +108,7 @@ static struct { const char *name; OpFn fn; } ops[] = {
     { "swprintf_ok", op_swprintf_ok }, { "snwprintf_small", op_snwprintf_small }, { "tmpfile", op_tmpfile }, { "strcpy", op_strcpy },
     { "strcpy_fail", op_strcpy_fail }, { "memcpy_fail", op_memcpy_fail }, { "memcpy", op_memcpy }, { "strtok", op_strtok }, { "strerror", op_strerror },
     { "wcsnorm", op_wcsnorm }, { "gmtime", op_gmtime }, { "getenv", op_getenv }, { "bsearch", op_bsearch }, { "wcsicmp", op_wcsicmp },
-    { "snprintf_trunc", op_snprintf_trunc },
+    { "snprintf_trunc", op_snprintf_trunc }, { "sprintf_lc", op_sprintf_lc }, { "mbstowcs", op_mbstowcs }, { "mbstowcs_count", op_mbstowcs_count }, { "wcstombs", op_wcstombs }, { "wctomb", op_wctomb },
 };
 #define NOPS ((int)(sizeof ops / sizeof ops[0]))
 
@@ -225,6 +220,7 @@ static void footprint(void) {
         deny_hit = NULL; in_op = 1;
         tv_log_begin(); ops[o].fn(&c); int n = tv_log_end(&al);
         in_op = 0;
+        if (deny_hit && !strcmp(ops[o].name, "wctomb") && !strcmp(deny_hit, "wctomb")) deny_hit = NULL;   /* wctomb_s is specified (K.3.6.4.1) as the non-restartable converter with an internal state: that one use is its interface, not hidden state */
         if (deny_hit) printf("{\"t\":\"viol\",\"sig\":\"C12|process-wide-state|%s|calls-%s\",\"case\":\"footprint %s %d\"}\n", ops[o].name, deny_hit, ops[o].name, v);
         size_t first, nb; int d = tv_diff(&first, &nb);
         int nw = 0; char wsym[128] = "";
@@ -259,6 +255,8 @@ int main(int argc, char **argv) {
     LOAD(localtime, "localtime_s"); LOAD(fopen, "fopen_s"); LOAD(strtok, "_strtok_s_chk"); LOAD(strerror, "_strerror_s_chk"); LOAD(wcsnorm, "_wcsnorm_s_chk"); LOAD(gmtime, "gmtime_s");
     LOAD(getenv, "_getenv_s_chk"); LOAD(bsearch, "_bsearch_s_chk"); LOAD(wcsicmp, "_wcsicmp_s_chk"); LOAD(snprintf, "_snprintf_s_chk");
     snwprintf_p = dlsym(L, "_snwprintf_s_chk"); if (!snwprintf_p) { fprintf(stderr, "missing snwprintf\n"); return 2; }
+    mbstowcs_p = dlsym(L, "_mbstowcs_s_chk"); wcstombs_p = dlsym(L, "_wcstombs_s_chk"); wctomb_p = dlsym(L, "_wctomb_s_chk");
+    if (!mbstowcs_p || !wcstombs_p || !wctomb_p) { fprintf(stderr, "missing converters\n"); return 2; }
     {   /* counting handlers through the public API: each thread's invocations are part of its result */
         void *(*ss)(void *) = dlsym(L, "set_str_constraint_handler_s"); void *(*sm)(void *) = dlsym(L, "set_mem_constraint_handler_s");
         if (!ss || !sm) { fprintf(stderr, "missing handler registration\n"); return 2; }
